@@ -160,8 +160,8 @@ class Predictor:
             a, b = eval_int(t["start"], env), eval_int(t["end"], env)
             if a is None or b is None: return None, 0
             return max(0, b - a + (1 if t.get("incl") else 0)), a
-        if lid in self.inferred: return self.inferred[lid], 0
-        return None, 0
+        if lid in self.inferred and self.inferred[lid] >= 0: return self.inferred[lid], 0
+        return None, 0          # unknown, or marked -1 = not inferable (trip varies between instances): body not predicted
 
     def mentions(self, nodes, var):
         if var is None: return False
@@ -190,6 +190,9 @@ class Predictor:
                 if self.unknown_depth == 0: self.pred[n["id"]] = self.pred.get(n["id"], 0) + mult
                 else: self.nopred.add(n["id"])
             elif k == "loopPub" and self.unknown_depth > 0:
+                # reached below something whose multiplicity is unknown in this pass: its visit count is incomplete, so
+                # its trip count must not be inferred from the measurement yet
+                self.seen_unknown.add(n["id"])
                 self.walk(n["body"], 0, env, op, None)
             elif k == "loopPub":
                 lid = n["id"]
@@ -237,12 +240,15 @@ class Predictor:
     def predict(self, op, measured):
         """measured: site id -> count (or None).  Returns (pred{site:count}, nopred set, problems[])"""
         problems = []
+        self.unpredicted = []
         for _ in range(12):
             self.pred, self.nopred, self.visits, self.pending, self.unknown_depth = {}, set(), {}, set(), 0
+            self.seen_unknown = set()
             self.walk(self.skel["ops"][op]["tree"], 1, self.env_for(op), op, None)
             new = False
             for lid in sorted(self.pending):
                 if lid in self.inferred: continue
+                if lid in self.seen_unknown: continue      # also occurs below a not-yet-resolved loop: wait for a later pass
                 body_site = self.first_site(lid)
                 v = self.visits.get(lid, 0)
                 m = measured.get(body_site)
@@ -252,8 +258,11 @@ class Predictor:
                 elif m % v == 0:
                     self.inferred[lid] = m // v
                 else:
-                    problems.append(f"loop#{lid} ({self.loops[lid]['file']}:{self.loops[lid]['line']} `{self.loops[lid]['header']}`): measured body count {m} "
-                                    f"is not a multiple of the predicted number of loop instances {v}")
+                    # the trip count of this loop is not a constant the skeleton knows (e.g. `for n in level..2 * level` with a
+                    # public `level` that changes between instances): nothing can be predicted for its body, which is then
+                    # compared only ACROSS secret values (the property itself), not against the skeleton's prediction
+                    self.unpredicted.append(f"loop#{lid} ({self.loops[lid]['file']}:{self.loops[lid]['line']} `{self.loops[lid]['header']}`): measured body count {m} "
+                                            f"over {v} loop instances — public trip count varies between instances, body not predicted")
                     self.inferred[lid] = -1
                     continue
                 new = True
@@ -343,7 +352,7 @@ def skeleton_tie(skel, op, run0, repo):
             if pred[sid] != m:
                 problems.append(f"{where}: skeleton predicts {pred[sid]} executions, measured {m}")
     return problems, {"sites": len(reach_sites(skel, op)), "sites_predicted_and_equal": checked - sum(1 for p in problems if "predicts" in p),
-                      "inferred_trips": {str(k): v for k, v in P.inferred.items()}}
+                      "inferred_trips": {str(k): v for k, v in P.inferred.items()}, "unpredicted_loops": P.unpredicted}
 
 
 # ---------------------------------------------------------------------------------------------- one operation
